@@ -4,7 +4,7 @@ Usage: twin_run.py [--props C01,C04] [twin-id ...]  (default: all checks x all t
 A twin must never produce a violation; exit 2 (ANALYSIS-ERROR) is tolerated but reported."""
 import json, os, shutil, subprocess, sys, tempfile
 from concurrent.futures import ThreadPoolExecutor
-V = "/verif"
+V = os.environ.get("VERIF_DIR", "/verif")
 PROPS = [f"C{i:02d}" for i in range(1, 21)]
 
 
